@@ -145,6 +145,12 @@ def minL [LE K] [DecidableLE K] : List K → K
   | [] => 0
   | a :: rest => rest.foldl (fun m v => if v ≤ m then v else m) a
 
+/-- Python's `max(l)` / `min(l)` without a `default`: `ValueError` on the empty list -/
+def maxE [LE K] [DecidableLE K] (l : List K) : Except String K :=
+  if l.isEmpty then throw "ValueError" else pure (maxL l)
+def minE [LE K] [DecidableLE K] (l : List K) : Except String K :=
+  if l.isEmpty then throw "ValueError" else pure (minL l)
+
 /-- `_normalize_importance_values` (after the repair of the zero test); `delta = true` is mode 'delta' -/
 def normalize [LE K] [DecidableLE K] (vals : Dict K) (delta : Bool) : Dict K :=
   let l := vals.map Prod.snd
